@@ -1742,17 +1742,61 @@ func checkReadersDoNotMutate(p *Prog, r *Roles, res *Result, rule string) {
 			name := c.Common().StaticCallee().Name()
 			own := false
 			if name == "RemoveElement" {
-				// the element comes from a Set call of the same (outermost) function
-				for _, v := range allCellValuesOpt(p, c.Common().Args[len(c.Common().Args)-1], false) {
-					if sc, ok := p.resolveDeep(v).(*ssa.Call); ok && isEngineCall(sc, "Set") {
-						own = true
-					} else if cst, isC := v.(*ssa.Const); isC && cst.Value == nil {
-						// nil: nothing inserted
-					} else {
-						own = false
-						break
+				// the element comes from a Set call (the marker this read inserted), possibly handed back by a seek
+				// helper of the package; nil stands for "nothing inserted"
+				nSet, other := 0, false
+				seenV := map[ssa.Value]bool{}
+				var walk func(v ssa.Value, d int)
+				walk = func(v ssa.Value, d int) {
+					for _, x := range allCellValuesOpt(p, v, false) {
+						x = p.resolveDeep(x)
+						if seenV[x] || d > 6 {
+							continue
+						}
+						seenV[x] = true
+						switch y := x.(type) {
+						case *ssa.Const:
+							if y.Value != nil {
+								other = true
+							}
+						case *ssa.Call:
+							if isEngineCall(y, "Set") {
+								nSet++
+							} else if h := y.Common().StaticCallee(); h != nil && h.Pkg == mp && h.Blocks != nil && h.Signature.Results().Len() == 1 {
+								for _, b := range h.Blocks {
+									if ret, ok := b.Instrs[len(b.Instrs)-1].(*ssa.Return); ok {
+										walk(ret.Results[0], d+1)
+									}
+								}
+							} else {
+								other = true
+							}
+						case *ssa.Extract:
+							hc, ok := y.Tuple.(*ssa.Call)
+							h := (*ssa.Function)(nil)
+							if ok {
+								h = hc.Common().StaticCallee()
+							}
+							if h == nil || h.Pkg != mp || h.Blocks == nil {
+								other = true
+								continue
+							}
+							for _, b := range h.Blocks {
+								if ret, ok := b.Instrs[len(b.Instrs)-1].(*ssa.Return); ok && y.Index < len(ret.Results) {
+									walk(ret.Results[y.Index], d+1)
+								}
+							}
+						case *ssa.Phi:
+							for _, e := range y.Edges {
+								walk(e, d+1)
+							}
+						default:
+							other = true
+						}
 					}
 				}
+				walk(c.Common().Args[len(c.Common().Args)-1], 0)
+				own = nSet > 0 && !other
 			}
 			if own {
 				res.ok(rule, construct, p.pos(c.Pos()), "RemoveElement of the element this read inserted")
